@@ -8,6 +8,7 @@ import (
 	"io"
 	"math"
 	"strings"
+	"unicode"
 
 	geom "github.com/twpayne/go-geom"
 	"github.com/twpayne/go-geom/encoding/ewkb"
@@ -474,14 +475,29 @@ func genC03(r *Rng, e *Emitter, n int) {
 				if err != nil {
 					return sxErr(err)
 				}
+				// the text is decoded as written, or in upper case (as PostGIS prints it), or in mixed case:
+				// the same bytes in every spelling
+				spelled := s
+				switch len(s) % 3 {
+				case 1:
+					spelled = strings.ToUpper(s)
+				case 2:
+					b := []byte(s)
+					for i := range b {
+						if i%2 == 0 {
+							b[i] = byte(unicode.ToUpper(rune(b[i])))
+						}
+					}
+					spelled = string(b)
+				}
 				var d geom.T
 				switch c.name {
 				case "wkb":
-					d, err = wkbhex.Decode(s)
+					d, err = wkbhex.Decode(spelled)
 				case "wkbnan":
-					d, err = wkbhex.Decode(s, nanOpt)
+					d, err = wkbhex.Decode(spelled, nanOpt)
 				default:
-					d, err = ewkbhex.Decode(s)
+					d, err = ewkbhex.Decode(spelled)
 				}
 				if s == "" {
 					s = "-"
